@@ -85,6 +85,15 @@ class PathExec:
                                       conds + [C.mk_not(f) for f in failed] + [c])
                 failed.append(c)
             yield from self.paths(it[2] + rest, env.copy(), list(reg_stores), conds + [C.mk_not(f) for f in failed])
+        elif it[0] == 'for' and self.cmp.liftable_for(it):
+            e = env.copy()
+            reg = Region()
+            self.cmp.exec_lifted_for(it, e, reg, self.side)
+            st = list(reg_stores)
+            for key, recs in reg.stores.items():
+                for r in recs:
+                    st.append((key, r))
+            yield from self.paths(rest, e, st, conds)
         elif it[0] in ('def', 'import'):
             yield from self.paths(rest, env, reg_stores, conds)
         else:
